@@ -1059,6 +1059,7 @@ class SyncObj(object):
     def __onReadonlyNodeDisconnected(self, node):
         self.__readonlyNodes.discard(node)
         self.__connectedNodes.discard(node)
+        self.__serializer.cancelTransmisstion(node)
         self.__raftNextIndex.pop(node, None)
         self.__raftMatchIndex.pop(node, None)
         node._destroy()
@@ -1068,6 +1069,7 @@ class SyncObj(object):
 
     def __onNodeDisconnected(self, node):
         self.__connectedNodes.discard(node)
+        self.__serializer.cancelTransmisstion(node)
 
     def __getCurrentLogIndex(self):
         return self.__raftLog[-1][1]
